@@ -6,6 +6,7 @@ open Qx.Driver Qx.C07
 inductive DSt
   | iq (s : St)
   | mam (s : Mam.St)
+  | neg (s : Neg.St)
 
 def parseId (w : String) : Id :=
   if w = "-" then .named ""
@@ -73,10 +74,24 @@ def iqOp (ws : List String) : Option Op :=
     match parseKind k, parseTy t with
     | some k, some t => some (.recv ⟨k, t, parseId id, parseStr f⟩)
     | _, _ => none
-  | ["opened", b] => (bit b).map .sessionOpened
+  | ["opened", r, e] =>
+    match bit r, bit e with
+    | some r, some e => some (.sessionOpened r e)
+    | _, _ => none
+  | ["sock", b] => (bit b).map .setSock
   | ["closed", b] => (bit b).map .sessionClosed
   | ["destroy"] => some .destroy
   | _ => none
+
+def negOp (ws : List String) : Option Neg.Op :=
+  match ws with
+  | ["nconn", sm, rn, r] =>
+    match bit sm, bit rn, bit r with
+    | some sm, some rn, some r => some (.connect sm rn r)
+    | _, _, _ => none
+  | ["nloss"] => some .loss
+  | ["ndisc"] => some .disconnect
+  | _ => (iqOp ws).map .base
 
 def mamOp (ws : List String) : Option Mam.Op :=
   match ws with
@@ -97,6 +112,7 @@ def stepLine (d : DSt) (line : String) : DSt × String :=
     match bit sock, bit sm with
     | some sock, some sm => (.iq (init (parseStr own) sock sm), "ok")
     | _, _ => (d, "bad-op")
+  | ["reset", "neg", own] => (.neg (Neg.init (parseStr own)), "ok")
   | ["reset", "mam", e, i] =>
     match bit e, bit i with
     | some e, some i => (.mam (Mam.init e i), "ok")
@@ -106,6 +122,10 @@ def stepLine (d : DSt) (line : String) : DSt × String :=
     | .iq s =>
       match iqOp ws with
       | some op => let r := step s op; (.iq r.1, obsIq r.1 r.2)
+      | none => (d, "bad-op")
+    | .neg s =>
+      match negOp ws with
+      | some op => let r := Neg.step s op; (.neg r.1, obsIq r.1.base r.2)
       | none => (d, "bad-op")
     | .mam s =>
       match mamOp ws with
